@@ -206,6 +206,17 @@ def pmap(fn, items, jobs=None, timeout=None):
         shutil.rmtree(tmpdir, ignore_errors=True)
 
 
+def pqueue(fn, initial, jobs=None, timeout=None):
+    """Dynamic work queue on top of forked workers: fn(item) -> (result, [new items]); yields results."""
+    pending = list(initial)
+    jobs = jobs or NCPU
+    while pending:
+        batch, pending = pending[:jobs * 4], pending[jobs * 4:]
+        for res, new_items in pmap(fn, batch, jobs, timeout):
+            pending.extend(new_items)
+            yield res
+
+
 def load_known():
     if not os.path.exists(KNOWN_FILE):
         return {}, []
